@@ -329,6 +329,68 @@ def run(ck: Check) -> int:
                     sr.histogram['perm-holds'] = sr.histogram.get('perm-holds', 0) + 1
         sr.distinct = len(records)
     ck.search('list-decomposition', s_prop)
+
+    def s_real(sr):
+        # the same decomposition under REALPATH on a real tree (added after seeded change C07h: the exclusion loop of `_match_real`
+        # compared the raw name, so an exclusion that needs the trailing separator of a directory — `*/` — stopped excluding the
+        # directory `pkg` written without one, while the inclusion side still saw `pkg/`)
+        import os
+        import shutil
+        import tempfile
+        G = w.G
+        tmp = tempfile.mkdtemp(prefix='c07-', dir='/tmp')
+        sr.note = ('REALPATH on a real tree (directories pkg, sub, sub/d, .hd; files f, sub/x, .hf; names with and without trailing separator): '
+                   'globmatch / globfilter / compile().match of [inclusions] with exclusions given by exclude= or inline (!, NEGATE) == some '
+                   'inclusion matches as a single REALPATH pattern and no exclusion matches as a single REALPATH|DOTGLOB pattern; through root_dir and cwd')
+        try:
+            for d in ('pkg', 'sub/d', '.hd'):
+                os.makedirs(os.path.join(tmp, d))
+            for f in ('f', 'sub/x', '.hf'):
+                open(os.path.join(tmp, f), 'w').close()
+            names = ['pkg', 'pkg/', 'f', 'sub', 'sub/', 'sub/d', 'sub/d/', 'sub/x', '.hd', '.hd/', '.hf', 'nope', 'nope/']
+            incs = [['*'], ['*', '*/*'], ['p*', 's*/*'], ['*/'], ['.*', '*']]
+            excs = [['*/'], ['p*/'], ['*/d/'], ['*/*/'], ['f'], ['*/x'], ['.*/'], ['*'], ['pkg']]
+            old = os.getcwd()
+            for inc in incs:
+                for exc in excs:
+                    for how in ('exclude', 'inline'):
+                        for mode in ('root_dir', 'cwd'):
+                            fl = G.REALPATH | (G.NEGATE if how == 'inline' else 0)
+                            pats = inc if how == 'exclude' else inc + ['!' + q for q in exc]
+                            kw = {'exclude': exc} if how == 'exclude' else {}
+                            try:
+                                if mode == 'cwd':
+                                    os.chdir(tmp)
+                                else:
+                                    kw['root_dir'] = tmp
+                                skw = {} if mode == 'cwd' else {'root_dir': tmp}
+                                want = [any(G.globmatch(n, p, flags=G.REALPATH, **skw) for p in inc)
+                                        and not any(G.globmatch(n, q, flags=G.REALPATH | G.DOTGLOB, **skw) for q in exc) for n in names]
+                                api = ('globmatch', 'globfilter', 'compile')[sr.evaluations % 3]
+                                if api == 'globmatch':
+                                    got = [G.globmatch(n, pats, flags=fl, **kw) for n in names]
+                                elif api == 'globfilter':
+                                    keep = set(G.globfilter(names, pats, flags=fl, **kw))
+                                    got = [n in keep for n in names]
+                                else:
+                                    ex = kw.pop('exclude', None)
+                                    m = G.compile(pats, flags=fl, exclude=ex) if ex is not None else G.compile(pats, flags=fl)
+                                    got = [m.match(n, **kw) for n in names]
+                            finally:
+                                os.chdir(old)
+                            sr.evaluations += 1
+                            if got != want:
+                                bad = [n for n, a, b in zip(names, want, got) if a != b]
+                                ck.report(Failing(f'glob.{api} (REALPATH, {mode}): list result differs from the combination of single-pattern results for names {bad[:4]}',
+                                                  {'api': 'glob.' + api, 'patterns': inc, 'exclusions': exc, 'given': how, 'root': mode, 'names': names,
+                                                   'tree': 'pkg/ sub/d/ .hd/ f sub/x .hf'}, want, got, site='wcmatch/_wcmatch.py:150-185'), None)
+                                sr.histogram['FAIL'] = sr.histogram.get('FAIL', 0) + 1
+                            else:
+                                sr.histogram['holds'] = sr.histogram.get('holds', 0) + 1
+            sr.distinct = len(incs) * len(excs) * 4
+        finally:
+            shutil.rmtree(tmp, ignore_errors=True)
+    ck.search('list-decomposition-realpath', s_real)
     if drv is not None:
         drv.close()
     w.close()
